@@ -61,6 +61,9 @@
 #undef protected
 #include "h_wrappers_vs.h"
 
+#ifdef VH_COVERAGE
+extern "C" void __gcov_dump(void);
+#endif
 using dmlc::InputSplit;
 using dmlc::io::InputSplitBase;
 using vh::Case;
@@ -401,6 +404,9 @@ struct WrapHarness : vh::Harness {
       ch.cfile_dir = fdir;
       ch.fd = pfd[1];
       ch.run(c.ops);
+#ifdef VH_COVERAGE
+      __gcov_dump();   // tools/coverage.py: forked children leave through _exit, which skips the gcov at-exit hook
+#endif
       _exit(0);
     }
     close(pfd[1]);
